@@ -76,9 +76,9 @@ static CO_ERR COTPdoMapWrite(struct CO_OBJ_T *obj, struct CO_NODE_T *node, void 
     uint32_t  objsz;
     uint32_t  maplen;
 
-    CO_UNUSED(size);
     ASSERT_PTR_ERR(obj, CO_ERR_BAD_ARG);
     ASSERT_PTR_ERR(buffer, CO_ERR_BAD_ARG);
+    ASSERT_EQU_ERR(size, 4u, CO_ERR_BAD_ARG);
 
     cod     = &node->Dict;
     pmapidx = CO_GET_IDX(obj->Key);
